@@ -314,7 +314,7 @@ func (w *World) TableRows(p *Pair) []map[string]any {
 
 // lookupIn answers filter-reference membership against given committed rows.
 func (w *World) lookupFn(tables func(name string) []map[string]any) model.Lookup {
-	return func(ref *refmodel.Ref, val []byte) bool {
+	return func(ref *refmodel.Ref, val []byte, _ uint64) bool {
 		var table string
 		for _, d := range w.decls {
 			if d.Name == ref.Integration {
@@ -454,4 +454,20 @@ func errString(e error) string {
 		s = s[:160] + "…"
 	}
 	return strings.ReplaceAll(s, "\n", " ")
+}
+
+// ExpectedLookup is Expected with an explicit reference-lookup function.
+func (w *World) ExpectedLookup(p *Pair, upto uint64, lookup model.Lookup) []model.Row {
+	if !p.FirstSet || upto < p.First {
+		return nil
+	}
+	p.Src.Node.Lock()
+	var blocks []*sim.Block
+	for n := p.First; n <= upto; n++ {
+		if b := p.Src.Node.Chain.At(n); b != nil {
+			blocks = append(blocks, b)
+		}
+	}
+	p.Src.Node.Unlock()
+	return model.Project(p.Decl, blocks, p.Src.Name, p.Src.ChainID, lookup)
 }
